@@ -21,7 +21,11 @@ Uvarint(n) == IF n < 128 THEN <<n>> ELSE <<(n % 128) + 128>> \o Uvarint(n \div 1
 RECURSIVE Digits(_)
 Digits(n) == IF n < 10 THEN <<48 + n>> ELSE Digits(n \div 10) \o <<48 + (n % 10)>>
 JsonInt(i) == IF i < 0 THEN <<45>> \o Digits(0 - i) ELSE Digits(i)
-JsonStr(bs) == <<34>> \o bs \o <<34>>
+\* encoding/json escapes <, > and & (HTML-safe rendering) as \u003c, \u003e, \u0026; other plain ASCII is copied
+EscByte(b) == IF b = 60 THEN <<92,117,48,48,51,99>> ELSE IF b = 62 THEN <<92,117,48,48,51,101>> ELSE IF b = 38 THEN <<92,117,48,48,50,54>> ELSE <<b>>
+RECURSIVE Esc(_)
+Esc(bs) == IF bs = <<>> THEN <<>> ELSE EscByte(Head(bs)) \o Esc(Tail(bs))
+JsonStr(bs) == <<34>> \o Esc(bs) \o <<34>>
 RECURSIVE Concat(_)
 Concat(ss) == IF ss = <<>> THEN <<>> ELSE Head(ss) \o Concat(Tail(ss))
 RECURSIVE Join(_, _)
